@@ -14,8 +14,11 @@
 // of the op (Tracked elements) + number of live elements.
 // Oracle = std::vector / std::string mirror built from the arguments only,
 // the lifetime ledger of the Tracked element type, canaries, ASan.
-#include "C14/machine.h"
+#include "C14/prelude.h"
 #include <igris/container/unbounded_array.h>
+// the library: flags of the command line; the generator and the harness machines: no optimisation (see C14/twin_c.h)
+#pragma GCC optimize("O0")
+#include "C14/machine.h"
 
 using namespace hv;
 using namespace c14;
